@@ -60,6 +60,7 @@ from returns.result import safe, Success
 import isla.isla_shortcuts as sc
 import isla.three_valued_truth
 from isla import language
+from isla import _verif
 from isla.derivation_tree import DerivationTree
 from isla.evaluator import (
     evaluate,
@@ -654,6 +655,8 @@ class ISLaSolver:
             cost: int
             state: SolutionState
             cost, state = heapq.heappop(self.queue)
+            if _verif.ENABLED:
+                _verif.emit("Pop", solver=self, state=state)
 
             self.current_level = state.level
             self.tree_hashes_in_queue.discard(state.tree.structural_hash())
@@ -3318,6 +3321,8 @@ class ISLaSolver:
                     heapq.heappush(self.queue, (0, check_state))
                     self.start_time = int(time.time())
                     self.timeout_seconds = 2
+                    if _verif.ENABLED:
+                        _verif.emit("ProbeBegin", solver=self, state=check_state)
 
                     try:
                         self.solve()
@@ -3334,6 +3339,8 @@ class ISLaSolver:
                         self.timeout_seconds = old_timeout_seconds
                         self.queue = old_queue
                         self.solutions = old_solutions
+                        if _verif.ENABLED:
+                            _verif.emit("ProbeEnd", solver=self)
 
             self.currently_unsat_checking = False
 
@@ -3370,6 +3377,8 @@ class ISLaSolver:
                     )
 
             assert state.formula_satisfied(self.grammar).is_true()
+            if _verif.ENABLED:
+                _verif.emit("Admit", solver=self, kind="Solution", state=state)
             return True
 
         # Helps in debugging below assertion:
@@ -3392,14 +3401,20 @@ class ISLaSolver:
             # more diverse solutions (numbers for SMT solutions and free nonterminals
             # are configurable, so you get more outputs by playing with those!).
             self.logger.debug("Discarding state %s, tree already in queue", state)
+            if _verif.ENABLED:
+                _verif.emit("Admit", solver=self, kind="DiscardDupTree", state=state)
             return False
 
         if hash(state) in self.state_hashes_in_queue:
             self.logger.debug("Discarding state %s, already in queue", state)
+            if _verif.ENABLED:
+                _verif.emit("Admit", solver=self, kind="DiscardDupState", state=state)
             return False
 
         if self.propositionally_unsatisfiable(state.constraint):
             self.logger.debug("Discarding state %s", state)
+            if _verif.ENABLED:
+                _verif.emit("Admit", solver=self, kind="DiscardFalse", state=state)
             return False
 
         state = SolutionState(
@@ -3412,6 +3427,8 @@ class ISLaSolver:
         heapq.heappush(self.queue, (cost, state))
         self.tree_hashes_in_queue.add(state.tree.structural_hash())
         self.state_hashes_in_queue.add(hash(state))
+        if _verif.ENABLED:
+            _verif.emit("Admit", solver=self, kind="Enqueue", state=state)
 
         if self.debug:
             self.state_tree[self.current_state].append(state)
